@@ -25,7 +25,7 @@ from ..tlc import MachineryError, SPECS, require_coverage, run_tlc, write_cfg
 
 FONT = os.path.join(SPECS, "font")
 AGL_DEVS = ["HexPrefixOnly", "ChrRange", "StripBothEnds", "CompFailAll"]
-FONT_DEVS = ["DiffKeepsBase", "HeaderValueError", "Type3SkewWidth"]
+FONT_DEVS = ["DiffKeepsBase", "HeaderValueError", "Type3SkewWidth", "BuiltinStdIgnored"]
 NC = 8
 FS = 10
 TOL = 1e-9
@@ -34,10 +34,10 @@ TOL = 1e-9
 # =============================================================================================== AGL (names)
 AGL_CONFIGS = {
     # (label, alphabet, maxlen, prefix)
-    "quick": [("all", "uni0DF8x_.", 5, ""), ("uni", "0DF8dxi_", 8, "uni"), ("u", "01FDux", 7, "u"),
+    "quick": [("all", "uni0DF8dx_.", 4, ""), ("uni", "0D8dxi_", 8, "uni"), ("u", "01FDu", 7, "u"),
               ("unigroups", "0D8", 11, "uni")],
     "thorough": [("all", "uni0DF8dx_.", 6, ""), ("uni", "0DF8dxin_.", 9, "uni"), ("u", "01FD8duxn_", 7, "u"),
-                 ("unigroups", "0D8F", 11, "uni"), ("join", "uni0A_.", 8, "")],
+                 ("unigroups", "0D8F", 11, "uni"), ("join", "uni0A_.", 7, "")],
 }
 
 
@@ -267,7 +267,8 @@ def realise_simple(rec, herr_active):
             if f["mw"] >= 0:
                 desc["MissingWidth"] = f["mw"]
     if f["file"]:
-        extra[100] = fp.fontfile_stream(fp.type1_header([(byte(e["c"]), gname[e["g"]][0]) for e in f["ent"]]))
+        extra[100] = fp.fontfile_stream(fp.type1_header([(byte(e["c"]), gname[e["g"]][0]) for e in f["ent"]],
+                                                        standard=f["std"]))
         desc["FontFile"] = Ref(100)
     if f["kind"] == "Type3":
         d.pop("BaseFont")
@@ -316,7 +317,8 @@ def realise_simple(rec, herr_active):
                 advs.append(adv_of(rec[wk][c - 1]))
             else:
                 # frame: codes outside the modelled window keep the base table / have no entry
-                if uses_builtin(f) or bt not in tables[b]:
+                std_lost = uses_builtin(f) and f["std"] and key == "c" and "BuiltinStdIgnored" in rec.get("devs", [])
+                if (uses_builtin(f) and (not f["std"] or std_lost)) or bt not in tables[b]:
                     t = "(cid:%d)" % bt
                     defined = False
                 else:
@@ -332,6 +334,8 @@ def realise_simple(rec, herr_active):
         exp["a" + key] = advs
     exp["err"] = rec["err"]
     exp["hit"] = [byte(c) for c in rec["hit"]]
+    if uses_builtin(f) and f["std"] and "BuiltinStdIgnored" in rec.get("devs", []):
+        exp["hit"] = list(range(256))
     exp["names"] = {g: gname[g][0] for g in gname}
     return pdf, exp
 
@@ -362,7 +366,10 @@ def compare_simple(rec, pdf, exp):
     for bt, (text, adv, m, _bb, _fn) in enumerate(chars):
         ti, tc, ai, ac = exp["ti"][bt], exp["tc"][bt], exp["ai"][bt], exp["ac"][bt]
         if text != ti:
-            if text == tc and bt in exp["hit"]:
+            if text == tc and bt in exp["hit"] and uses_builtin(f) and f["std"]:
+                out.append(("dev:BuiltinStdIgnored", "code %d of a font whose embedded Type 1 program declares StandardEncoding "
+                            "shows %r, expected %r" % (bt, text, ti), {"code": bt, "observed": text, "expected": ti}))
+            elif text == tc and bt in exp["hit"]:
                 out.append(("dev:DiffKeepsBase", "code %d named %s in Differences shows %r, expected %r" % (
                     bt, "an unmappable glyph", text, ti), {"code": bt, "observed": text, "expected": ti}))
             else:
@@ -442,6 +449,7 @@ def run_sf_tlc(job):
     mod = gen_sf_module(tmp, tag, offwin)
     cfg = write_cfg(os.path.join(tmp, "sf_%s.cfg" % tag),
                     constants={"NC": NC, "OffWin": offwin, "MaxDiff": maxdiff, "Fonts": "<- " + space,
+                               "PrecKinds": '{"Type1"}' if cov else '{"Type1", "Type3"}',
                                "Defined": "<- MCDefined", "Dev": tla_set(dev) if dev else "<- NoDev"},
                     invariants=["DiffOverlayStep", "DiffOverlay", "Precedence", "WidthRule", "CursorInWindow",
                                 "NoIntendedError", "DevLocal", "DevScale"], constraints=["Emit"])
@@ -474,6 +482,8 @@ def direction_a_fonts(ck, dev, jobs, futures, ppool):
         os.remove(emit)
         if len(recs) != res.emitted or not recs:
             raise MachineryError("SimpleFont %s: TLC emitted %d fonts, %d read" % (space, res.emitted, len(recs)))
+        for r in recs:
+            r["devs"] = list(dev)
         chunks = [(herr, recs[i:i + 40]) for i in range(0, len(recs), 40)]
         k = 0
         for chunk, results in zip(chunks, ppool.map(simple_worker, chunks)):
@@ -498,8 +508,8 @@ def direction_a_fonts(ck, dev, jobs, futures, ppool):
 
 
 def font_summary(f):
-    return "%s enc=%s/%s diff=%s tu=%s ent=%s fc=%s widths=%s mw=%s fm=%s" % (
-        f["kind"], f["enc"], f["base"], [x["v"] if x["t"] == "int" else x["g"] for x in f["diff"]], f["tu"],
+    return "%s%s enc=%s/%s diff=%s tu=%s ent=%s fc=%s widths=%s mw=%s fm=%s" % (
+        f["kind"], "+FontFile(StandardEncoding)" if f.get("std") else ("+FontFile" if f["file"] else ""), f["enc"], f["base"], [x["v"] if x["t"] == "int" else x["g"] for x in f["diff"]], f["tu"],
         [(e["c"], e["g"]) for e in f["ent"]], f["fc"], f["widths"], f["mw"], f["fm"])
 
 
@@ -718,10 +728,18 @@ def run(ck):
         ja, js = agl_jobs(ck, agl_dev), sf_jobs(ck, font_dev)
         fa = [tpool.submit(run_agl_tlc, j) for j in ja]
         fs = [tpool.submit(run_sf_tlc, j) for j in js]
+        import time
+        t0 = time.time()
+        ph = {}
         direction_a_agl(ck, ja, fa)
+        ph["agl"] = round(time.time() - t0, 1)
         direction_a_fonts(ck, font_dev, js, fs, ppool)
+        ph["fonts"] = round(time.time() - t0, 1)
         direction_a_cache(ck)
+        ph["cache"] = round(time.time() - t0, 1)
         direction_b(ck, font_dev, ppool)
+        ph["traces"] = round(time.time() - t0, 1)
+        ck.extra["phase_finished_at_s"] = ph
     table_data_check(ck)
     ck.exhaustive = True
 
